@@ -180,6 +180,7 @@ func PhiLeaves(v ssa.Value, at ssa.Instruction) []Leaf {
 	seen := map[*ssa.Phi]bool{}
 	var rec func(v ssa.Value, at ssa.Instruction, pred, to *ssa.BasicBlock)
 	rec = func(v ssa.Value, at ssa.Instruction, pred, to *ssa.BasicBlock) {
+		v = Unspill(v)
 		if phi, ok := v.(*ssa.Phi); ok {
 			if seen[phi] {
 				return
@@ -491,4 +492,31 @@ func ParamIndex(fn *ssa.Function, name string) int {
 		}
 	}
 	return -1
+}
+
+// Unspill sees through go/ssa's result spilling in functions with defers: a load `*slot` of a local cell
+// that is preceded, in the same block, by a store to that cell yields the stored value.
+func Unspill(v ssa.Value) ssa.Value {
+	u, ok := v.(*ssa.UnOp)
+	if !ok || u.Op != token.MUL {
+		return v
+	}
+	a, ok := u.X.(*ssa.Alloc)
+	if !ok {
+		return v
+	}
+	b := u.Block()
+	var last ssa.Value
+	for _, in := range b.Instrs {
+		if in == ssa.Instruction(u) {
+			break
+		}
+		if st, ok := in.(*ssa.Store); ok && st.Addr == ssa.Value(a) {
+			last = st.Val
+		}
+	}
+	if last != nil {
+		return last
+	}
+	return v
 }
